@@ -107,15 +107,26 @@ func Harness_C03_routes() {
 func Harness_C03_trips() {
 	R := vr.Param("R", 2)
 	files := hBase()
+	lite := vr.Param("LITE", 0) == 1 // concrete routes/shapes, so that two trip rows stay affordable
+	hID := func(tag, concrete string) string {
+		if lite {
+			return concrete
+		}
+		return vr.Str(tag)
+	}
 	files["routes.txt"] = vr.File{Name: "routes.txt", Header: []string{"route_id", "agency_id", "route_type"},
-		Rows: [][]string{{vr.Str("routes.r0.id"), "ag", "1"}, {vr.Str("routes.r1.id"), "ag", "2"}}}
+		Rows: [][]string{{hID("routes.r0.id", "r1"), "ag", "1"}, {hID("routes.r1.id", "r2"), "ag", "2"}}}
 	files["shapes.txt"] = vr.File{Name: "shapes.txt", Header: []string{"shape_id", "shape_pt_lat", "shape_pt_lon", "shape_pt_sequence"},
-		Rows: [][]string{{vr.Str("shapes.r0.id"), "1.5", "2.5", "1"}}}
+		Rows: [][]string{{hID("shapes.r0.id", "sh1"), "1.5", "2.5", "1"}}}
 	hdr := []string{"route_id", "service_id", "trip_id", "shape_id"}
 	var rows [][]string
 	for i := 0; i < R; i++ {
+		shape := "sh1"
+		if !lite {
+			shape = vr.Str(vr.T("trips.r", i, ".shape"))
+		}
 		rows = append(rows, []string{vr.Str(vr.T("trips.r", i, ".route")), vr.OneOf(vr.T("trips.r", i, ".service"), "sv1", "nope", ""),
-			vr.Str(vr.T("trips.r", i, ".id")), vr.Str(vr.T("trips.r", i, ".shape"))})
+			vr.Str(vr.T("trips.r", i, ".id")), shape})
 	}
 	files["trips.txt"] = vr.File{Name: "trips.txt", Header: hdr, Rows: rows}
 	r := hParse(files, ParseStaticOptions{})
